@@ -120,8 +120,15 @@ func (a *IBCAdapter) ParsePacket(
 		return nil, err
 	}
 
+	// NOTE: sdk.NewCoin panics on a negative amount or an invalid denom, and the
+	// ICS-20 application validates the packet data only later, when it receives it.
+	coin := sdk.Coin{Denom: denom, Amount: amount}
+	if err := coin.Validate(); err != nil {
+		return nil, errorsmod.Wrap(err, "invalid coin")
+	}
+
 	return &types.ParsedData{
-		Coin:    sdk.NewCoin(denom, amount),
+		Coin:    coin,
 		Payload: *payload,
 	}, nil
 }
